@@ -26,6 +26,14 @@ struct Upd {
     health: u8, // 0 Healthy 1 Degraded 2 Failed 3 Unknown
 }
 
+thread_local! {
+    static RT: tokio::runtime::Runtime = tokio::runtime::Builder::new_current_thread().enable_time().build().expect("tokio current-thread runtime");
+}
+
+fn block_on<F: std::future::Future>(f: F) -> F::Output {
+    RT.with(|rt| rt.block_on(f))
+}
+
 fn health_of(h: u8) -> NodeHealth {
     match h {
         0 => NodeHealth::Healthy,
@@ -287,7 +295,14 @@ fn monotone(case_seed: u64, r: &mut Report) {
     let mut trace: Vec<String> = Vec::new();
     let mut st = LWWMembershipState::new();
     let t = h_chain::CaptureTransport::new("local", &["obs".to_string()]);
-    let mgr = GossipMembershipManager::new("local".into(), GossipConfig::default(), t);
+    // half of the manager cases let suspicions expire at once (1 ms), so that the failure verdict of
+    // expire_suspicions (run at the end of every gossip round) is part of the program
+    let fast_expiry = rng.bool();
+    let gcfg = if fast_expiry { GossipConfig { suspicion_timeout_ms: 1, ..GossipConfig::default() } } else { GossipConfig::default() };
+    let mgr = GossipMembershipManager::new("local".into(), gcfg, t);
+    if use_mgr {
+        mgr.add_peer("obs".into());
+    }
     let mut prev_time = 0u64;
     let mut prev_inc: BTreeMap<String, u64> = BTreeMap::new();
     let steps = 10 + rng.below(40);
@@ -365,8 +380,16 @@ fn monotone(case_seed: u64, r: &mut Report) {
             }
             6 => {
                 let tme = rng.below(60) as u64;
-                desc = format!("sync_time {}", tme);
-                if !use_mgr {
+                if use_mgr {
+                    // a gossip round: sends a Sync to a peer and expires pending suspicions
+                    desc = format!("gossip_round (suspicion timeout {} ms)", if fast_expiry { 1 } else { 5000 });
+                    if fast_expiry {
+                        std::thread::sleep(std::time::Duration::from_millis(2));
+                    }
+                    let _ = block_on(mgr.gossip_round());
+                    r.count("monotone_gossip_rounds", 1);
+                } else {
+                    desc = format!("sync_time {}", tme);
                     st.sync_time(tme);
                 }
             }
@@ -605,7 +628,7 @@ fn main() {
 
     let meta = Meta {
         property: "C17",
-        rule: "conv-exhaustive: every multiset of <=N (quick 4, thorough 5) updates over 2 members x incarnation{0,1,2} x timestamp{1,2} x {Healthy,Degraded,Failed}, each delivered in every permutation x every batching (+ full re-delivery) to a fresh real LWWMembershipState and compared with the canonical delivery; conv-random: 3-10 updates over 2-4 members (incl. Unknown health), sampled permutations/batchings/duplications through merge and through GossipMembershipManager::handle_gossip(Sync); monotone: random programs of merges and local events (suspicions may name incarnations nobody announced; through the manager also add_peer of members already learned through gossip) with per-call checks; hlc: random programs of now / receive (wall before, equal to, after the clock's; arbitrary logical counters) / clock jumps on the real HybridLogicalClock, every issued timestamp compared with the previous one. A case is distinct by the hash of its update multiset / trace and non-trivial if at least two different updates concern the same member (so order can matter).",
+        rule: "conv-exhaustive: every multiset of <=N (quick 4, thorough 5) updates over 2 members x incarnation{0,1,2} x timestamp{1,2} x {Healthy,Degraded,Failed}, each delivered in every permutation x every batching (+ full re-delivery) to a fresh real LWWMembershipState and compared with the canonical delivery; conv-random: 3-10 updates over 2-4 members (incl. Unknown health), sampled permutations/batchings/duplications through merge and through GossipMembershipManager::handle_gossip(Sync); monotone: random programs of merges and local events (suspicions may name incarnations nobody announced; through the manager also add_peer of members already learned through gossip, and gossip rounds that expire pending suspicions - 1 ms suspicion timeout in half of those cases) with per-call checks; hlc: random programs of now / receive (wall before, equal to, after the clock's; arbitrary logical counters) / clock jumps on the real HybridLogicalClock, every issued timestamp compared with the previous one. A case is distinct by the hash of its update multiset / trace and non-trivial if at least two different updates concern the same member (so order can matter).",
         assumptions: vec![
             "views are compared on (health, incarnation) per member, as the statement says; timestamps and wall-clock stamps are not compared".into(),
             "manager convergence uses a sender that is not an observed member, because handle_sync additionally marks the *sender* healthy with a local timestamp (a local event, not a membership update)".into(),
